@@ -146,3 +146,20 @@ fn gc_contract<const DA: bool, const DB: bool>() {
 #[kani::proof] #[kani::unwind(4)] fn k_autodespawn_gc_none_gone() { gc_contract::<false, false>(); }
 //# id=K.autodespawn.signal.c5 props=C10,C07 strength=bounded shape="5 clones dropped one by one; entity id symbolic" tier=thorough fns=AutoDespawner::prepare,AutoDespawner::try_recv,AutoDespawnSignal::clone,AutoDespawnSignalInner::drop
 #[kani::proof] #[kani::unwind(8)] fn k_autodespawn_signal_c5() { signal_contract::<5>(); }
+
+// ---------------------------------------------------------------------------------------------------------------
+// K.autodespawn.setup_twice: setup_auto_despawn is idempotent (C10): a second call (another plugin asking for it) must not
+// replace the AutoDespawner - signals prepared before it stay connected to the channel that the collector drains.
+// ---------------------------------------------------------------------------------------------------------------
+//# id=K.autodespawn.setup_twice props=C10 strength=complete shape="setup, prepare a signal, setup again, drop the signal (entity id symbolic)" tier=quick fns=AutoDespawnAppExt::setup_auto_despawn,AutoDespawner::prepare,AutoDespawner::try_recv
+#[kani::proof] #[kani::unwind(6)]
+fn k_autodespawn_setup_twice() {
+    let mut app = App::new();
+    app.setup_auto_despawn();
+    let e = Entity::verif_new(kani::any(), 1);
+    let sig = app.world().resource::<AutoDespawner>().prepare(e);
+    app.setup_auto_despawn();
+    drop(sig);
+    assert!(app.world().resource::<AutoDespawner>().try_recv() == Some(e), "setup_auto_despawn: a repeated setup keeps the existing despawner (signals prepared earlier are still collected)");
+    core::mem::forget(app);
+}
